@@ -11,9 +11,9 @@ from vh import gen as G
 
 
 def units(tier):
-    if tier == "quick":
-        return PG.program_units(tier, "rt_prog", ics=(True, False), rotate=True)
-    return PG.program_units(tier, "rt_prog", ics=(True, False))
+    # every (program, hole) gets one (std, ignore_comments) combination, rotating; thorough uses the
+    # larger program set and 3-character lexemes for the base programs
+    return PG.program_units(tier, "rt_prog", ics=(True, False), rotate=True)
 
 
 def meta(tier):
@@ -26,7 +26,7 @@ def meta(tier):
         assumptions=["names differ from Fortran keywords and intrinsic function names (gen.KEYWORDS + Intrinsic_Name.function_names)",
                      "labels in one program are distinct; label holes have no leading zero",
                      "the rule registry of ParserFactory.create(std) is cached per process and swapped in (validated by native witness replay, which calls create())"],
-        budget_s=400 if q else 3300, unit_budget_s=60 if q else 300)
+        budget_s=400 if q else 2400, unit_budget_s=60 if q else 300)
 
 
 def with_comments(src):
